@@ -82,7 +82,7 @@ func replayFiles(pr *progResult, extra map[string]string) map[string]string {
 }
 
 func specFor(r *base.Run, i int) gen.Spec {
-	return gen.Spec{Seed: r.Seed, Index: i, Hostile: i%3 != 0, Tests: i%2 == 0, Excluded: i%4 == 1, Impl: i%5 == 0, PerPair: 12}
+	return gen.Spec{Seed: r.Seed, Index: i, Hostile: i%3 != 0, Tests: i%2 == 0, Excluded: i%4 == 1, Impl: i%5 == 0, PerPair: 12, SameNames: i%7 == 3, Transit: i%7 == 5}
 }
 
 func cfgFor(i int) gen.Cfg {
